@@ -30,6 +30,9 @@ trace <i> SCRIPT :: <sys>…        -> <i> trace <accept|reject@pos> <match|expe
                                                  failed rename, unlink of the temp file, D = dest touched)
 kill <i> <syscall>:<N> SCRIPT :: <same|L:FNV>   -> <i> kill <ok|BAD>   (destination observed after SIGKILL on
                                                   entry to the N-th such syscall on the two paths)
+gate <i> <sched> <none|zstd> <puller> <chunk> <HA> <HB> <HC>  -> <i> | ok L:FNV | ok L:FNV | ok L:FNV
+                                     (three resources of one real Server with gated reader sources, opened / parked /
+                                     finished in the scripted order; each pull gets exactly its own content)
 wsstorm <i> <cap> <outcap> <chunk> <obs>… SCRIPT :: …  -> as storm (the crate's WebSocketServer, off-reader cap saturated)
 storm <i> <ok|D / err|D>… SCRIPT :: …       -> <i> storm <ok|BAD>  (12+ pulls through one client, one of them cut)
 par <i> <N> <0|1> SCRIPT :: SCRIPT :: …     -> <i> | ret .. dest .. tmp .. | …   (async pulls run concurrently on a
@@ -287,6 +290,17 @@ def step (st : Unit) (ws : List String) : Unit × String :=
         (st, joinSp [idx, "trace", acc, if same then "match" else "expected:" ++ ",".intercalate (want.map showSys)])
       | none => (st, idx ++ " bad-op")
     | none => (st, idx ++ " bad-op")
+  | ["gate", idx, sched, _comp, pu, _chunk, ha, hb, hc] =>
+    -- three streams of one server interleaved as schedule `sched` says: each pull is a complete stream of its own
+    -- resource (model: `pulls_do_not_interfere`); the line lists the pulls in the order they end
+    let order : List Nat := match natOf sched % 7 with
+      | 0 => [0, 2, 1] | 1 => [0, 1, 2] | 2 => [0, 2, 1] | 3 => [1, 0, 2] | 4 => [0, 1, 2] | 5 => [0, 2, 1] | _ => [1, 0, 0, 2]
+    match bytesOfHex ha, bytesOfHex hb, bytesOfHex hc with
+    | some a, some b, some c =>
+      let datas := [a, b, c]
+      let content := fun (i : Nat) => let d := datas.getD i []; if pu = "trailer" then d.take (d.length - 4) else d
+      (st, joinSp (idx :: order.map fun i => "| ok " ++ digest (content i)))
+    | _, _, _ => (st, idx ++ " bad-op")
   | "wsstorm" :: idx :: _cap :: _outcap :: _chunk :: rest => (st, stormObs idx rest)
   | "storm" :: idx :: rest => (st, stormObs idx rest)
   | "par" :: idx :: _bp :: _shared :: rest =>
